@@ -50,8 +50,8 @@ def run(ctx, report: Report) -> None:
     report.analysed['fallback_edges'] = sorted(set(map(str, cg.fallback_edges)))
 
     # ---- R1 / R2 ---------------------------------------------------------------------------------------
-    r1 = report.rule('C06-R1', 'only documented exception types leave compile()', floor=6)
-    r2 = report.rule('C06-R2', 'partial operations reachable from compile() are discharged', floor=3)
+    r1 = report.rule('C06-R1', 'only documented exception types leave compile()', floor=3)
+    r2 = report.rule('C06-R2', 'partial operations reachable from compile() are discharged', floor=2)
     esc = ef.escapes(entry)
     for q in sorted(reach):
         for e in ef.events(q):
@@ -124,7 +124,7 @@ def run(ctx, report: Report) -> None:
         raise AnalysisError('no CSSParser(...) construction found')
 
     # ---- R4 ------------------------------------------------------------------------------------------------
-    r4 = report.rule('C06-R4', 'arguments of the memoised compiler are hashable', floor=4)
+    r4 = report.rule('C06-R4', 'arguments of the memoised compiler are hashable', floor=3)
     from .sem import compile_table
     compile_table(ctx, r4, None)
 
